@@ -147,3 +147,25 @@ def spec_minbe_pos(name):
 
 
 HARNESSES += [h_ec_import_refuses_missing_member, h_rsa_import_refuses_partial_crt]
+
+
+def h_export_is_a_fresh_copy():
+    """as_dict returns the members that were given: extra parameters of one export, or edits of a returned dict, never
+    show up in a later export (the key's own JWK view is not handed out)."""
+    form = sym_choice("form", ["dict", "bytes"])
+    k = sym_bytes("k")
+    if form == "dict":
+        key = OctKey.import_key({"kty": "oct", "k": spec_b64u(k).decode("ascii")})
+    else:
+        key = OctKey.import_key(k)
+    private = sym_choice("private", [None, True, False])
+    first = key.as_dict(private, kid=sym_str("kid"), use="enc")
+    first["k"] = "edited-by-the-caller"
+    second = key.as_dict(private)
+    check("kid" not in second and "use" not in second, "parameters passed to one export do not leak into the next one")
+    if private is not False:
+        check(py_eq(second.get("k"), spec_b64u(k).decode("ascii")), "editing a returned dict does not change what the key exports later")
+    check(py_eq(key.raw_value, k), "nor the key material")
+
+
+HARNESSES.append(h_export_is_a_fresh_copy)
